@@ -61,6 +61,19 @@ pub enum Base {
     DateTime(i32, u32, u32, u32, u32, u32, u32),
     Dur(u64, u32),
     My(MyVal),
+    /// `Vec<u8>` of `len` pattern bytes (kept symbolic so that huge values serialise small)
+    BigBytes { seed: u32, len: usize },
+    /// `String` of `len` printable-ASCII pattern bytes
+    BigStr { seed: u32, len: usize },
+}
+
+pub fn big_bytes(seed: u32, len: usize) -> Vec<u8> {
+    crate::gen::pattern(seed, len)
+}
+
+pub fn big_str(seed: u32, len: usize) -> String {
+    let v: Vec<u8> = (0..len as u64).map(|i| b' ' + 1 + crate::gen::pattern_byte(seed, i) % 90).collect();
+    String::from_utf8(v).unwrap()
 }
 
 /// How the value is passed: by value, by reference, inside an `Option`, …
@@ -141,6 +154,8 @@ pub fn dispatch<S: Sink>(val: &Val, sink: &mut S) -> io::Result<()> {
         ),
         Base::Dur(secs, us) => wrapped(std::time::Duration::new(*secs, *us * 1000), w, sink),
         Base::My(m) => wrapped(m.to_my(), w, sink),
+        Base::BigBytes { seed, len } => wrapped(big_bytes(*seed, *len), w, sink),
+        Base::BigStr { seed, len } => wrapped(big_str(*seed, *len), w, sink),
     }
 }
 
